@@ -73,8 +73,8 @@ def run_utmp(case):
     return [{"user": r.name, "terminal": r.terminal, "host": r.host, "started": r.started, "pid": r.pid} for r in rows]
 
 
-ESC = {" ": "\\040", "\t": "\\011"}
-DIRS = {"/": "/", "/mnt/a b": "/mnt/a b", "/mnt/tab": "/mnt/t\tb"}
+ESC = {" ": "\\040", "\t": "\\011", "\\": "\\134"}
+DIRS = {"/": "/", "/mnt/a b": "/mnt/a b", "/mnt/tab": "/mnt/t\tb", "/mnt/bslash": "/mnt/back\\040slash"}
 
 
 def esc(s):
